@@ -6,8 +6,8 @@
    raises for m = 1). *)
 From Coq Require Import ZArith Bool List Arith Lia QArith Qcanon.
 From QV.Core Require Import OF QcOF.
-From QV.Model Require Import C03_Index C03_VarObj C03_SetQOps.
-From QV.Proofs Require Import C03_Index C03_VarObj C03_SetQOps C03_Derivative C03_Extra.
+From QV.Model Require Import C03_Index C03_VarObj C03_SetQOps C03_SetHistory.
+From QV.Proofs Require Import C03_Index C03_VarObj C03_SetQOps C03_Derivative C03_Extra C03_SetHistory.
 Import ListNotations.
 
 (* ------------------------------------------------------------------ round trips *)
@@ -269,6 +269,43 @@ Theorem C03_set_total_points_at_entry : forall (F : OF) (s : setq F) (k : kind) 
 Proof. exact set_total_points_at_entry. Qed.
 Print Assumptions C03_set_total_points_at_entry.
 
+(* ------------------------------------------------------------------ SetQOperations over a HISTORY
+   (events: the five queries, the four setters, in-place item assignment / insert / pop on the lists the properties hand out;
+    the state of the model is the four lists and nothing else, as in qoperations.py) *)
+(* queries leave no trace: the set a history leads to is the set its edits alone lead to *)
+Theorem C03_history_edits_only : forall (F : OF) (h : list (hop F)) (s : setq F),
+  run_history F s h = run_history F s (filter (is_edit F) h).
+Proof. exact run_history_edits_only. Qed.
+Print Assumptions C03_history_edits_only.
+(* whatever was asked or edited before, a query is answered by the CURRENT contents *)
+Theorem C03_history_answer_is_current : forall (F : OF) (sdf : nat -> F) (s : setq F) (h : list (hop F)) (qr : hop F),
+  nth (length h) (transcript F sdf s (h ++ [qr])) (ANone F) =
+  answer_of F sdf (run_history F s (filter (is_edit F) h)) qr.
+Proof. exact answer_after_history. Qed.
+Print Assumptions C03_history_answer_is_current.
+(* hence the index theorems hold for the set AS IT IS NOW: every total index has a local address that maps back to it ... *)
+Theorem C03_history_total_local_total : forall (F : OF) (s : setq F) (h : list (hop F)) (t : Z),
+  let s' := run_history F s h in
+  0 <= t < size_total (sizes_of F s') ->
+  exists k (i : nat) j, local_from_total (sizes_of F s') t = LOk k (Z.of_nat i) j /\ (i < length (ops_of F s' k))%nat /\
+    0 <= j < nth i (sizes_of F s' k) 0 /\ total_from_local (sizes_of F s') k (Z.of_nat i) j = Some t.
+Proof. exact history_total_local_total. Qed.
+Print Assumptions C03_history_total_local_total.
+(* ... and the total index of (kind, operation, local variable) points at the object entry holding that variable's value in the
+   CURRENT var_total, after any history that puts well-formed objects into the set *)
+Theorem C03_history_points_at_entry : forall (F : OF) (s : setq F) (h : list (hop F)) (k : kind) (i j : nat) (dq : qop F),
+  setq_wf F s -> Forall (hop_wf F) h ->
+  let s' := run_history F s h in
+  (i < length (ops_of F s' k))%nat -> 0 <= Z.of_nat j < qop_num_variables F (nth i (ops_of F s' k) dq) ->
+  exists t, total_from_local (sizes_of F s') k (Z.of_nat i) (Z.of_nat j) = Some t /\
+            0 <= t < size_total (sizes_of F s') /\
+            local_from_total (sizes_of F s') t = LOk k (Z.of_nat i) (Z.of_nat j) /\
+            nth (Z.to_nat t) (var_total F s') (c0 F) =
+            nth (Z.to_nat (qop_flat_index F (nth i (ops_of F s' k) dq) (Z.of_nat j)))
+                (qop_stacked F (nth i (ops_of F s' k) dq)) (c0 F).
+Proof. exact history_points_at_entry. Qed.
+Print Assumptions C03_history_points_at_entry.
+
 (* ------------------------------------------------------------------ non-vacuity: concrete instances over Qc *)
 (* index maps: 1-qubit instrument with 3 outcomes under the constraint has 3*16-4 = 44 variables; variable 40 lives in
    the last HS matrix, row 3 (shifted by the implied row), column 0, i.e. at stacked position 44 = 40 + 4 *)
@@ -317,3 +354,15 @@ Example C03_example_bumped :
 Proof. split; [lia|]. split; [reflexivity|]. split; [lia|]. split; [|split; [exact I|discriminate]].
   split; [reflexivity|]. intros k. do 8 (destruct k as [|k]; [apply Qc_is_canon; reflexivity|]).
   destruct k; apply Qc_is_canon; reflexivity. Qed.
+
+(* a history on ex_set: ask where total index 6 lives (the POVM, local 2), replace the 4-variable state by the SAME NUMBER of states
+   with the other parametrisation (3 variables), ask again: total index 6 is now local variable 3 of the POVM, 7 variables in total *)
+Definition ex_hist : list (hop Qc_OF) :=
+  [HLocalOfTotal Qc_OF 6; HSet Qc_OF KState [QState Qc_OF 2 true [q 1; q 2; q 3; q 4]]; HSizeTotal Qc_OF].
+Example C03_example_history :
+  Forall (hop_wf Qc_OF) ex_hist /\
+  size_total (sizes_of Qc_OF (run_history Qc_OF ex_set ex_hist)) = 7 /\
+  local_from_total (sizes_of Qc_OF (run_history Qc_OF ex_set ex_hist)) 6 = LOk KPovm 0 3 /\
+  local_from_total (sizes_of Qc_OF ex_set) 6 = LOk KPovm 0 2.
+Proof. split; [|repeat split; reflexivity].
+  repeat constructor; cbn; lia. Qed.
